@@ -1,5 +1,6 @@
 import SJ.Props.C01
 import SJ.Props.C01Iff
+import SJ.Props.C01Ap
 #print axioms SJ.Props.C01.c01_complete_value
 #print axioms SJ.Props.C01.c01_complete_sideConditions
 #print axioms SJ.Props.C01.c01_complete_value_ap
@@ -10,3 +11,18 @@ import SJ.Props.C01Iff
 #print axioms SJ.Props.C01Iff.c01_accepts_iff
 #print axioms SJ.Props.C01Iff.c02_value_is_canon
 #print axioms SJ.Props.C01Iff.c19_skip_language
+#print axioms SJ.Props.C01Ap.c01_ap_conservative
+#print axioms SJ.Props.C01Ap.c01_ap_conservative_cst
+#print axioms SJ.Props.C01Ap.c01_ap_complete_tokenfree
+#print axioms SJ.Props.C01Ap.c01_ap_accepts_iff_tokenfree
+#print axioms SJ.Props.C01Ap.c01_ap_number_from_str
+#print axioms SJ.Props.C01Ap.c01_ap_token_object
+#print axioms SJ.Props.C01Ap.c01_ap_token_language
+#print axioms SJ.Props.C01Ap.c01_ap_token_value_not_string
+#print axioms SJ.Props.C01Ap.c01_ap_token_not_number
+#print axioms SJ.Props.C01Ap.c01_ap_token_extra_member
+#print axioms SJ.Props.C01Ap.c01_ap_token_eof
+#print axioms SJ.Props.C01Ap.c01_ap_accepts_iff_partial
+#print axioms SJ.Props.C01Ap.c01_ap_sound
+#print axioms SJ.Props.C01Ap.c01_ap_accepts_iff
+#print axioms SJ.Props.C01Ap.c01_ap_accepts_iff_run
